@@ -218,6 +218,15 @@ def run(rep, tier, seed, replay):
     mism = 0
     samples = []
     nevals = 0
+    per_class = {}
+
+    def report(kl, *a, **kw):
+        # at most 2 replays per violation class, so that one frequent class cannot use up the
+        # 20-replay budget of ltv.Report
+        per_class[kl] = per_class.get(kl, 0) + 1
+        if per_class[kl] <= 2:
+            rep.violation(*a, klass=kl, **kw)
+
     for i, case in enumerate(cases):
         m = mo[i] if i < len(mo) else "MISSING"
         o = io[i] if i < len(io) else "MISSING"
@@ -233,9 +242,9 @@ def run(rep, tier, seed, replay):
             where = next((j for j, (a, b) in enumerate(zip(m.split(" | "), o.split(" | "))) if a != b), -1)
             if viol:
                 kl, text = viol[0]
-                rep.violation("model and implementation differ (op %d) AND the property fails on the implementation: %s" % (where, text),
-                              case=case, model=m, impl=o, theorem="correspondence C15 (per-op results and table dumps)", klass=kl)
-            else:
+                report(kl, "model and implementation differ (op %d) AND the property fails on the implementation: %s" % (where, text),
+                       case=case, model=m, impl=o, theorem="correspondence C15 (per-op results and table dumps)")
+            elif mism <= 3:
                 rep.violation("correspondence broken: model and implementation differ at op %d (property oracle holds on this case)" % where,
                               case=case, model=m, impl=o, theorem="correspondence C15 (per-op results and table dumps)", found_input=False)
         else:
@@ -244,7 +253,7 @@ def run(rep, tier, seed, replay):
                 if kl in seen:
                     continue
                 seen.add(kl)
-                rep.violation(text, case=case, model=m, impl=o, theorem="property oracle C15", klass=kl)
+                report(kl, text, case=case, model=m, impl=o, theorem="property oracle C15")
     if not coq["ok"]:
         rep.violation("C15 proof obligations no longer check (%d/%d): %s %s" % (
             coq["discharged"], coq["obligations"], "; ".join(coq["lint"] + coq["bad_axioms"]), coq["log"][-1500:]),
@@ -253,7 +262,7 @@ def run(rep, tier, seed, replay):
                    rule="evaluations = ops executed on both sides (each followed by a checksum of the full state dump); "
                         "non-trivial case = distinct case line after which the implementation's table has at least two buckets "
                         "(a split happened) or in which get_peers returned peer values",
-                   samples=samples, input_distribution=stats, mismatches=mism, exhaustive=(tier == "thorough"),
+                   samples=samples, input_distribution=stats, mismatches=mism, violation_classes=per_class, exhaustive=(tier == "thorough"),
                    exhaustive_scope="thorough: all op sequences of length <= 4 over a 7-op alphabet on a full own bucket (2801 cases)")
     rep.assumptions += ["virtual time below 2^32 seconds", "IPv4 only (the code drops everything else)",
                         "contact ops never carry the router's own id (DhtServer::event_read rejects such packets)",
